@@ -606,7 +606,7 @@ func c06MarshalRenders(cases []c06Render) func(idx []int) []byte {
 // ---------------------------------------------------------------------------
 // the ill-typed hooks for gen_prog.go
 
-var c06Atoms = []string{"null", "true", "false", "0", "1", "7", "-1", "1.5", "0.0", "'a'", "''", "'12'", "[]", "[1, 'a']", "['k': 1]", "[[1], [2]]"}
+var c06Atoms = []string{"null", "true", "false", "0", "1", "7", "-1", "1.5", "0.0", "0.5", "(0.0 / 0.0)", "(1.0 / 0.0)", "'a'", "''", "'12'", "[]", "[1, 'a']", "['k': 1]", "[[1], [2]]"}
 
 var c06FuncNames = []string{"isNonnull", "length", "keys", "augmentMap", "round", "floor", "ceiling", "min", "max", "randomInt", "strContains", "range", "hasData", "index", "isFirst", "isLast", "nosuchfn"}
 
@@ -617,6 +617,7 @@ var c06BadRanges = []string{
 	"range(0, 9223372036854775807, 4611686018427387904)", "range(9223372036854775800, 9223372036854775807, 3)",
 	"range(5, 0)", "range(-3)", "range(0, 0, 1)", "range('a')", "range(1.5)", "range(null)", "range(0, 'x')", "range(0, 4, 'x')", "range(2, 11, 4)",
 	"range(-9223372036854775807, -9223372036854775800, 5)",
+	"range(0, 3, 0.5)", "range(0, 3, 1.0)", "range(0, 2.5)", "range(1.5, 4)", "range(0.5)", "range(0, 3, 0.0 / 0.0)", "range(0, 3, 1.0 / 0.0)", "range(0, 3, 0.0 * -1)",
 }
 
 func (g *progGen) c06Arg(env genv) string {
@@ -774,7 +775,7 @@ type c06Plan struct {
 }
 
 func runC06(e *env) {
-	e.res.Rule = "renders: ill-typed bundles from the program grammar (hooks: any atom at any operand, wrong arities of all functions and directives, range steps <=0 and overflowing, $ij, bad accesses, % by zero) x {data of the declared kinds, arbitrary JSON data with missing params, no data} x {no ij, ij}; duplicate template names across files; exhaustive enumerations (binary operators x operand kinds, functions x argument counts 0..4 x kinds, directives x argument counts x kinds, loop functions, data-bounded recursion); soyhtml.EvalExpr on the closed enumerations; soy.ParseGlobals on generated files. Every implementation run in a worker subprocess (3 GiB, per-case timeout). Non-trivial = the case reaches an error, a call, a loop or a directive; distinct by source + data."
+	e.res.Rule = "renders: ill-typed bundles from the program grammar (hooks: any atom at any operand, wrong arities of all functions and directives, range steps <=0 and overflowing, $ij, bad accesses, % by zero) x {data of the declared kinds, arbitrary JSON data with missing params, no data} x {no ij, ij}; duplicate template names across files; inputs sharing a file name (long/short siblings, every order); floats of every kind at every argument position; exhaustive enumerations (binary operators x operand kinds, functions x argument counts 0..4 x kinds, directives x argument counts x kinds, loop functions, data-bounded recursion); soyhtml.EvalExpr on the closed enumerations; soy.ParseGlobals on generated files and on a malformed-line stream; EvalExpr on malformed token soups. Every implementation run in a worker subprocess (3 GiB, per-case timeout). Non-trivial = the case reaches an error, a call, a loop or a directive; distinct by source + data."
 	if e.replay != "" {
 		c06Replay(e)
 		return
@@ -835,6 +836,9 @@ func c06RiskOf(files []srcFile) string {
 		if c06StepRe.MatchString(f.Text) {
 			return "range-step<=0"
 		}
+		if c06FloatRangeRe.MatchString(f.Text) {
+			return "range-float"
+		}
 		if strings.Contains(f.Text, "range(") && (strings.Contains(f.Text, "4611686018427387904") || strings.Contains(f.Text, "92233720368547758")) {
 			return "range-overflow"
 		}
@@ -854,9 +858,9 @@ func c06Duplicate(r *hx.Rand, files []srcFile, entry string) []srcFile {
 }
 
 func c06EnumData() data.Map {
-	return data.Map{"n": data.Null{}, "b": data.Bool(true), "i": data.Int(7), "z": data.Int(0), "f": data.Float(1.5),
+	return c06ExtraEnumData(data.Map{"n": data.Null{}, "b": data.Bool(true), "i": data.Int(7), "z": data.Int(0), "f": data.Float(1.5),
 		"s": data.String("héllo <b> & 'q'"), "e": data.String(""), "l": data.List{data.Int(1), data.String("a")},
-		"m": data.Map{"a": data.Int(1), "b": data.Map{"c": data.Int(2)}}}
+		"m": data.Map{"a": data.Int(1), "b": data.Map{"c": data.Int(2)}}})
 }
 
 var c06VarAtoms = []string{"$u", "$n", "$b", "$i", "$z", "$f", "$s", "$e", "$l", "$m", "null", "'lit'", "[]", "-1", "2"}
@@ -876,8 +880,8 @@ func c06EnumBundles(tag string, bodies []string, size int) []c06Plan {
 		for j, body := range bodies[off:end] {
 			sb.WriteString("\n/**\n")
 			seen := map[string]bool{}
-			for _, v := range []string{"u", "n", "b", "i", "z", "f", "s", "e", "l", "m"} {
-				if strings.Contains(body, "$"+v) && !seen[v] {
+			for _, v := range c06EnumVars {
+				if c06UsesVar(body, v) && !seen[v] {
 					seen[v] = true
 					sb.WriteString(" * @param? " + v + "\n")
 				}
@@ -1007,6 +1011,8 @@ func c06Enumerations(e *env) []c06Plan {
 		plans = append(plans, c06Plan{c: c06Render{Kind: "render", Files: []srcFile{{Name: "tail.soy", Text: msgPlural}}, Template: "m.t", Data: valueSexp(data.Map{"i": data.Int(3), "u": data.Int(int64(k % 3))}, ids), FailAt: k / 3, Tag: "msg-tail"}, nontriv: true})
 	}
 	plans = append(plans, c06Plan{c: c06Render{Kind: "render", Files: []srcFile{{Name: "tail.soy", Text: msgPlural}}, Template: "m.t", Data: valueSexp(data.Map{"i": data.Int(3), "u": data.String("two")}, ids), Tag: "msg-tail"}, nontriv: true})
+	plans = append(plans, c06EnumBundles("enum-floats", c06FloatBodies(), 40)...)
+	plans = append(plans, c06SameNamePlans()...)
 	// duplicate template names: the ledger's witness, both file orders, error in the long and in the short file
 	long := "{namespace a}\n" + strings.Repeat("// padding padding padding\n", 10) + "/** */\n{template .t}\n{1 < 'a'}\n{/template}\n"
 	short := "{namespace a}\n/** */\n{template .t}\nx{1 % 0}\n{/template}\n"
@@ -1028,6 +1034,16 @@ func c06Renders(e *env, perCase time.Duration) {
 		if e.rng.Chance(15) {
 			files = c06Duplicate(e.rng, files, entry)
 			tag = "random-duplicate"
+		}
+		if len(files) > 1 && e.rng.Chance(25) {
+			// all inputs under one name (the name is optional)
+			nm := e.rng.Pick([]string{"", "x.soy"})
+			fs := append([]srcFile{}, files...)
+			for j := range fs {
+				fs[j].Name = nm
+			}
+			files = fs
+			tag += "-samename"
 		}
 		ids := newIDTable()
 		risky := c06RiskOf(files)
@@ -1214,6 +1230,9 @@ func c06RunRenderPlans(e *env, plans []c06Plan, perCase time.Duration) {
 		case "ok":
 			if cls != "ok" {
 				e.res.Fail(hx.Violation{Kind: "mismatch", What: "implementation returns an error, the model renders", Case: p.c, Expected: hx.Q(mo.String()), Observed: hx.UnH(fields[2])}, "")
+			} else if mo.String() != out && c06HugeFloatToInt(c06TemplateBody(p.c.Files, p.c.Template)) {
+				// Go's conversion of a float outside the int64 range is implementation-defined; the model wraps
+				e.res.Histogram["skipped:float-to-int-out-of-range"]++
 			} else if mo.String() != out {
 				e.res.Fail(hx.Violation{Kind: "mismatch", What: "rendered output differs from the model", Case: p.c, Expected: hx.Q(mo.String()), Observed: hx.Q(out)}, "")
 			}
@@ -1273,6 +1292,7 @@ func c06ExprTexts(e *env) []c06Expr {
 	}
 	add("ledger", "1 < 'a'")
 	add("ledger", "-'x'")
+	c06ExtraExprs(e, add)
 	// random closed expressions from the program grammar with the ill-typed hooks
 	g := &progGen{r: e.rng, o: progOpts{depth: 3, illTyped: 20, exprHook: c06ExprHook}, feats: map[string]int{}}
 	for i := 0; i < 150*e.scale; i++ {
@@ -1292,6 +1312,9 @@ func c06Exprs(e *env, perCase time.Duration) {
 	for i, c := range cs {
 		if c.Tag == "range-risky" {
 			risky[i] = c06RiskOf([]srcFile{{Text: c.Text}})
+			if risky[i] == "" {
+				risky[i] = "range-float"
+			}
 		}
 	}
 	res := c06Run(e, "c06expr", len(cs), func(idx []int) []byte {
@@ -1360,7 +1383,9 @@ func c06Exprs(e *env, perCase time.Duration) {
 		case "ok":
 			if cls != "ok" {
 				e.res.Fail(hx.Violation{Kind: "mismatch", What: "EvalExpr returns an error, the model a value", Case: c, Expected: strings.Join(m[1:], " "), Observed: hx.UnH(f[2])}, "")
-			} else if got, want := canonIDs(hx.UnH(f[2]), 1), canonIDs(strings.Join(m[1:], " "), 1); got != want {
+			} else if got, want := canonIDs(hx.UnH(f[2]), 1), canonIDs(strings.Join(m[1:], " "), 1); got != want && c06HugeFloatToInt(c.Text) {
+				e.res.Histogram["skipped:float-to-int-out-of-range"]++
+			} else if got != want {
 				e.res.Fail(hx.Violation{Kind: "mismatch", What: "EvalExpr's value differs from the model", Case: c, Expected: want, Observed: got}, "")
 			}
 		case "err":
@@ -1416,6 +1441,7 @@ func c06GlobInputs(e *env) []c06Glob {
 		add("erroring", "a = 1\nb = "+r+"\nc = 3\n")
 	}
 	add("ledger", "a = -'x'\n")
+	c06ExtraGlobs(e, add)
 	add("empty", "")
 	add("empty", "\n\n\r\n")
 	// the scanner's 64 KiB token limit, on both sides of the boundary, terminated and not
